@@ -65,6 +65,14 @@ def run(tier, rep):
             frames[2] = frames[4] = frames[0]
             dm[2] = dm[4] = True
             where[2] = where[4] = "payload"
+        if i % 4 == 3:
+            # growth after damage: the longest frame of the stream comes after a damaged one (the
+            # handler keeps every error object alive)
+            bigf = frame_of(bytes([0x7D, 0x30 | (i % 16)]) + bytes(rnd.randrange(256) for _ in range(rnd.choice([520, 700, 1021]))))
+            frames.append(bigf)
+            dm.append(False)
+            where.append(None)
+            k += 1
         sent = [gen_streams.damage(rnd, f, where=w) if d else f for f, d, w in zip(frames, dm, where)]
         data = b"".join(sent)
         quit = i % 3
